@@ -1,7 +1,7 @@
 (* Entry.v — single extracted entry point [run]: request = VList [VStr name; arg].
    All marshalling is done here in Gallina so that ocaml/driver.ml stays generic. *)
 From Coq Require Import ZArith List Bool String Ascii.
-From Verif Require Import PyStr Normalize NormalizeGen Util UtilGen Toc TocGen Footnote FootnoteGen Cli CliGen.
+From Verif Require Import PyStr Normalize NormalizeGen Util UtilGen Toc TocGen Footnote FootnoteGen Cli CliGen StoreGen.
 Import ListNotations.
 Open Scope Z_scope.
 
@@ -85,6 +85,16 @@ Definition run_named (name : str) (arg : pval) : pval :=
       | OVersion => VList [VStr (z_of_string "version")]
       | OUsage => VList [VStr (z_of_string "usage")]
       end
+    | _ => VErr "arg" end
+  else if is_name name "sc_pattern" then
+    match arg with
+    | VList [VList rules; VList spec; key] =>
+      let strs := fun l => flat_map (fun v => match v with VStr s => [s] | _ => [] end) l in
+      let sp := flat_map (fun v => match v with VList [VStr k; VStr p] => [(k, p)] | _ => [] end) spec in
+      let rl := match key with VList r => strs r | _ => strs rules end in
+      let fix get (s : list (str * str)) (k : str) : str :=
+          match s with [] => [] | (k', v) :: s' => if str_eqb k k' then v else get s' k end in
+      VStr (join sc_sep (map (fun r => sc_group_open ++ r ++ sc_group_mid ++ get sp r ++ sc_group_close) rl))
     | _ => VErr "arg" end
   else VErr "unknown function".
 
